@@ -28,11 +28,34 @@ import (
 // Only one writer can be open at a time, multiple calls will block until the previous writer
 // is closed.
 func (c *Conn) Writer(ctx context.Context, typ MessageType) (io.WriteCloser, error) {
-	w, err := c.writer(ctx, typ)
+	_, err := c.writer(ctx, typ)
 	if err != nil {
 		return nil, fmt.Errorf("failed to get writer: %w", err)
 	}
-	return w, nil
+	return &msgWriterHandle{mw: c.msgWriter}, nil
+}
+
+// msgWriterHandle is what Writer hands out. The connection has a single msgWriter
+// that every message reuses; the handle keeps a writer that has been closed from
+// ending, extending or unlocking a message that another goroutine has begun since.
+type msgWriterHandle struct {
+	mw     *msgWriter
+	closed bool
+}
+
+func (h *msgWriterHandle) Write(p []byte) (int, error) {
+	if h.closed {
+		return 0, errors.New("failed to write: writer already closed")
+	}
+	return h.mw.Write(p)
+}
+
+func (h *msgWriterHandle) Close() error {
+	if h.closed {
+		return errors.New("failed to close writer: writer already closed")
+	}
+	h.closed = true
+	return h.mw.Close()
 }
 
 // Write writes a message to the connection.
